@@ -12,16 +12,8 @@ mod world;
 
 use mcx::*;
 use serde_json::json;
-use std::{
-    sync::atomic::{AtomicU64, Ordering},
-    time::Duration,
-};
+use std::sync::atomic::{AtomicU64, Ordering};
 use world::{Cfg, Fate, Interf, Op, World};
-
-/// Worlds older than this are rebuilt before the next letter: the `redis`
-/// client's built-in 500 ms response timer must never get a chance to fire.
-const REFRESH_AGE: Duration = Duration::from_millis(120);
-const MAX_AGE: Duration = Duration::from_millis(350);
 
 static REBUILDS: AtomicU64 = AtomicU64::new(0);
 static HEIGHT_EXISTS: AtomicU64 = AtomicU64::new(0);
@@ -30,7 +22,16 @@ static LOCK_HELD: AtomicU64 = AtomicU64::new(0);
 static UNRECONCILED: AtomicU64 = AtomicU64::new(0);
 static REPAIR_WRITES: AtomicU64 = AtomicU64::new(0);
 static NODE_HEIGHT_DUP: AtomicU64 = AtomicU64::new(0);
-static LEADER_CHANGES: AtomicU64 = AtomicU64::new(0);
+
+/// One letter of the alphabet: the action plus whether taking it here is a
+/// preemptive context switch (another replica acts while the current one is in
+/// the middle of an operation). Preemptions count as deviations.
+#[derive(Clone, Debug, serde::Serialize, serde::Deserialize)]
+struct Letter {
+    op: Op,
+    #[serde(default)]
+    pre: bool,
+}
 
 struct Managed {
     world: Option<World>,
@@ -39,6 +40,8 @@ struct Managed {
 
 struct C25 {
     cfg: Cfg,
+    /// count preemptive context switches as deviations (false: unrestricted interleaving)
+    bound_preemptions: bool,
 }
 
 impl C25 {
@@ -48,9 +51,6 @@ impl C25 {
             w.apply(op)?;
             if w.check().is_err() {
                 return Err(Interf("accepted history violates on rebuild".into()));
-            }
-            if w.age() > MAX_AGE {
-                return Err(Interf("rebuild too slow".into()));
             }
         }
         Ok(w)
@@ -67,11 +67,12 @@ fn count(obs: &str) {
     c("FENCING_ERROR", &FENCED);
     c("LOCK_HELD", &LOCK_HELD);
     c("unreconciled", &UNRECONCILED);
+    c("repair-write", &REPAIR_WRITES);
 }
 
 impl Subject for C25 {
     type World = Managed;
-    type Op = Op;
+    type Op = Letter;
 
     fn name(&self) -> String {
         self.cfg.name.clone()
@@ -86,18 +87,21 @@ impl Subject for C25 {
         machinery_failure("cannot build the C25 world (sockets/threads)")
     }
 
-    fn enabled(&self, m: &Managed) -> Vec<Op> {
-        m.world.as_ref().unwrap().enabled()
+    fn enabled(&self, m: &Managed) -> Vec<Letter> {
+        let w = m.world.as_ref().unwrap();
+        w.enabled().into_iter().map(|op| Letter { pre: self.bound_preemptions && w.is_preemption(&op), op }).collect()
     }
 
-    fn step(&self, m: &mut Managed, op: &Op) -> Result<String, Violation> {
+    fn label(&self, l: &Letter) -> String {
+        let s = format!("{:?}", l.op);
+        s.split(|c: char| !c.is_alphanumeric()).next().unwrap_or("").to_string()
+    }
+
+    fn step(&self, m: &mut Managed, letter: &Letter) -> Result<String, Violation> {
+        let op = &letter.op;
         let mut last = String::new();
         for _attempt in 0..6 {
-            let stale = match &m.world {
-                Some(w) => w.age() > REFRESH_AGE,
-                None => true,
-            };
-            if stale {
+            if m.world.is_none() {
                 m.world = None; // tear the old one down first
                 REBUILDS.fetch_add(1, Ordering::Relaxed);
                 match self.build(&m.history) {
@@ -109,8 +113,11 @@ impl Subject for C25 {
                 }
             }
             let w = m.world.as_mut().unwrap();
+            if self.bound_preemptions && w.is_preemption(op) != letter.pre {
+                machinery_failure(&format!("{}: letter {letter:?} disagrees with the world about being a preemption", self.cfg.name));
+            }
             match w.apply(op) {
-                Ok(obs) if w.age() <= MAX_AGE => {
+                Ok(obs) => {
                     m.history.push(op.clone());
                     count(&obs);
                     w.check()?;
@@ -118,10 +125,6 @@ impl Subject for C25 {
                         NODE_HEIGHT_DUP.fetch_add(1, Ordering::Relaxed);
                     }
                     return Ok(obs);
-                }
-                Ok(_) => {
-                    last = "letter finished after the age limit".into();
-                    m.world = None;
                 }
                 Err(Interf(e)) => {
                     last = e;
@@ -136,24 +139,33 @@ impl Subject for C25 {
         m.world.as_ref().unwrap().canon()
     }
 
-    fn deviation(&self, op: &Op) -> u32 {
-        match op {
-            Op::Tick(_) | Op::Commit(_) | Op::GhostExec(_) | Op::Restart(_) => 0,
+    fn deviation(&self, l: &Letter) -> u32 {
+        let fault = match &l.op {
+            Op::Tick(_) | Op::Commit(_) | Op::GhostExec(_) | Op::Restart(_) | Op::Sync(_) => 0,
             Op::Exec { fate, .. } => (*fate != Fate::Deliver) as u32,
             _ => 1,
-        }
+        };
+        fault + l.pre as u32
     }
 
-    fn interesting(&self, op: &Op, obs: &str) -> bool {
-        self.deviation(op) > 0 || obs.contains("=> -") || obs.contains("unreconciled") || obs.contains("commits")
+    fn interesting(&self, l: &Letter, obs: &str) -> bool {
+        self.deviation(l) > 0 || obs.contains("=> -") || obs.contains("unreconciled") || obs.contains("commits")
     }
 
     fn required_labels(&self) -> Vec<String> {
-        ["Tick", "Exec", "Commit"].iter().map(|s| s.to_string()).collect()
+        if std::env::var("VH_DEPTH").is_ok() {
+            return vec![];
+        }
+        ["Tick", "Exec", "Commit", "Sync", "Expire", "ExpireAll", "Crash", "Release"].iter().map(|s| s.to_string()).collect()
     }
 }
 
-fn configs(cli: &Cli) -> Vec<(Cfg, usize, u32)> {
+fn env(k: &str) -> Option<u64> {
+    std::env::var(k).ok().and_then(|v| v.parse::<u64>().ok())
+}
+
+/// (configuration, depth bound, deviation bound, count preemptions)
+fn configs(cli: &Cli) -> Vec<(Cfg, usize, u32, bool)> {
     let base = Cfg {
         name: String::new(),
         replicas: 2,
@@ -165,14 +177,50 @@ fn configs(cli: &Cli) -> Vec<(Cfg, usize, u32)> {
         max_epoch: 3,
         max_crashes: 1,
         allow_release: true,
+        allow_sync: true,
     };
     let mut v = vec![];
     match cli.tier {
         Tier::Quick => {
-            v.push((Cfg { name: "C25/r2n3b0/h2".into(), ..base.clone() }, 400, 1));
+            v.push((Cfg { name: "C25/r2n3b0/h2".into(), ..base.clone() }, 400, 2, true));
         }
         Tier::Thorough => {
-            v.push((Cfg { name: "C25/r2n3b0/h2".into(), ..base.clone() }, 400, 2));
+            v.push((Cfg { name: "C25/r2n3b0/h2".into(), ..base.clone() }, 400, 2, true));
+            v.push((Cfg { name: "C25/r2n3b0/h2/d3".into(), ..base.clone() }, 400, 3, true));
+            v.push((Cfg { name: "C25/r3n3b0/h2".into(), replicas: 3, ..base.clone() }, 400, 2, true));
+            v.push((Cfg { name: "C25/r2n3b1/h2".into(), budget: 1, ..base.clone() }, 400, 2, true));
+            v.push((Cfg { name: "C25/r2n3b0/h3/trim2".into(), stream_max_len: 2, exact_trim: true, max_height: 3, ..base.clone() }, 400, 2, true));
+            v.push((Cfg { name: "C25/r2n3b0/h1/free".into(), max_height: 1, max_epoch: 2, ..base.clone() }, 400, 1, false));
+        }
+    }
+    // debugging knobs (never set by ./check)
+    if let Some(i) = env("VH_ONLY") {
+        v = vec![v.remove(i as usize)];
+    }
+    for (c, depth, devs, pre) in v.iter_mut() {
+        if let Some(x) = env("VH_HEIGHT") {
+            c.max_height = x as u32;
+        }
+        if let Some(x) = env("VH_EPOCH") {
+            c.max_epoch = x;
+        }
+        if let Some(x) = env("VH_CRASHES") {
+            c.max_crashes = x as u32;
+        }
+        if let Some(x) = env("VH_SYNC") {
+            c.allow_sync = x != 0;
+        }
+        if let Some(x) = env("VH_RELEASE") {
+            c.allow_release = x != 0;
+        }
+        if let Some(x) = env("VH_DEPTH") {
+            *depth = x as usize;
+        }
+        if let Some(x) = env("VH_DEVS") {
+            *devs = x as u32;
+        }
+        if let Some(x) = env("VH_PRE") {
+            *pre = x != 0;
         }
     }
     v
@@ -183,24 +231,40 @@ fn main() {
     if cli.property != "C25" {
         machinery_failure(&format!("vh-redis does not serve {}", cli.property));
     }
-    let cfgs = configs(&cli);
     if let Some(path) = &cli.replay {
         let rf = load_replay(path);
-        for (cfg, _, _) in cfgs {
-            if cfg.name == rf.subject {
-                replay_and_exit(&C25 { cfg }, &rf);
+        // the subject may belong to either tier
+        for tier in [Tier::Quick, Tier::Thorough] {
+            let c = Cli { tier, ..cli.clone() };
+            for (cfg, _, _, pre) in configs(&c) {
+                if cfg.name == rf.subject {
+                    replay_and_exit(&C25 { cfg, bound_preemptions: pre }, &rf);
+                }
             }
         }
         machinery_failure("replay: unknown subject");
     }
+    let cfgs = configs(&cli);
+    let n_cfgs = cfgs.len() as u64;
     let mut run = Run::new(&cli, "model_checking");
-    for (cfg, depth, devs) in cfgs {
-        let s = C25 { cfg };
-        let b = Bounds::new(depth, &cli).deviations(devs);
+    for (cfg, depth, devs, pre) in cfgs {
+        let s = C25 { cfg, bound_preemptions: pre };
+        let mut b = Bounds::new(depth, &cli).deviations(devs);
+        if let Some(w) = env("VH_WALL") {
+            b = b.wall(w);
+        } else if cli.tier == Tier::Thorough {
+            b = b.wall(1400 / n_cfgs);
+        }
         let r = explore(&s, &b);
+        println!("  frontier sizes: {:?}", r.frontier_sizes);
+        println!("  label hits: {:?}", r.label_hits);
         run.add(r);
     }
-    run.note("world_rebuilds_for_age_or_hiccup", json!(REBUILDS.load(Ordering::Relaxed)));
+    run.note("world_rebuilds_after_harness_hiccup", json!(REBUILDS.load(Ordering::Relaxed)));
+    run.note(
+        "replica_worker_threads",
+        json!({"created": world::WORKERS_CREATED.load(Ordering::Relaxed), "discarded": world::WORKERS_DISCARDED.load(Ordering::Relaxed)}),
+    );
     run.note(
         "outcome_counts",
         json!({
@@ -209,12 +273,12 @@ fn main() {
             "LOCK_HELD": LOCK_HELD.load(Ordering::Relaxed),
             "unreconciled_results": UNRECONCILED.load(Ordering::Relaxed),
             "repair_writes": REPAIR_WRITES.load(Ordering::Relaxed),
-            "leader_changes": LEADER_CHANGES.load(Ordering::Relaxed),
             "diag_two_entries_same_height_on_one_node": NODE_HEIGHT_DUP.load(Ordering::Relaxed),
         }),
     );
     run.assume("mini-Lua and MiniRedis are trusted re-implementations of the Lua 5.1 subset and the Redis commands the six scripts use (no redis-server/Lua exists in the sandbox); they abort on anything outside that subset");
-    run.assume("the replica driver (Tick/Commit) restates what PoA MainTask and the importer do around the adapter: leader_state(next) -> publish before local commit, publish error => release, reconciled blocks imported in order");
+    run.assume("interleaving bound: a preemptive context switch (another replica acts while one is in the middle of leader_state/publish/release) counts as one deviation, like a fault; late execution of straggler/ghost script calls, lease expiry and P2P sync are never preemptions");
+    run.assume("the replica driver (Tick/Commit/Sync) restates what PoA MainTask and the importer do around the adapter: leader_state(next) -> publish before local commit, publish error => release, reconciled blocks imported in order");
     run.assume("a timed-out / failed script call is presented to the client as an error reply (the adapter treats timeout and error alike); lease/node timeouts are set to one hour so real time never decides");
     run.finish();
 }
@@ -235,6 +299,7 @@ mod tests {
             max_epoch: 5,
             max_crashes: 1,
             allow_release: true,
+            allow_sync: true,
         }
     }
 
@@ -270,5 +335,183 @@ mod tests {
         w.check().unwrap();
         assert_eq!(w.reps[0].db, w.reps[1].db);
         println!("{}", String::from_utf8_lossy(&w.canon()));
+    }
+}
+
+#[cfg(test)]
+mod bench {
+    use super::*;
+    #[test]
+    fn bench_world() {
+        let cfg = Cfg { name: "t".into(), replicas: 2, nodes: 3, budget: 0, stream_max_len: 1000, exact_trim: false, max_height: 2, max_epoch: 5, max_crashes: 1, allow_release: true, allow_sync: true };
+        let t = std::time::Instant::now();
+        for _ in 0..50 {
+            let w = World::new(cfg.clone()).unwrap();
+            drop(w);
+        }
+        println!("new+drop: {:?} each", t.elapsed() / 50);
+        let mut tn = std::time::Duration::ZERO;
+        let mut td = std::time::Duration::ZERO;
+        for _ in 0..50 {
+            let t = std::time::Instant::now();
+            let w = World::new(cfg.clone()).unwrap();
+            tn += t.elapsed();
+            let t = std::time::Instant::now();
+            drop(w);
+            td += t.elapsed();
+        }
+        println!("new {:?} drop {:?}", tn / 50, td / 50);
+        let t = std::time::Instant::now();
+        for _ in 0..50 {
+            let h = std::thread::spawn(|| {
+                let rt = tokio::runtime::Builder::new_current_thread().enable_all().start_paused(true).build().unwrap();
+                drop(rt);
+            });
+            h.join().unwrap();
+        }
+        println!("thread+runtime: {:?} each", t.elapsed() / 50);
+        let t = std::time::Instant::now();
+        for _ in 0..50 {
+            let h = std::thread::spawn(|| {});
+            h.join().unwrap();
+        }
+        println!("thread only: {:?} each", t.elapsed() / 50);
+        let t = std::time::Instant::now();
+        let mut letters = 0;
+        for _ in 0..50 {
+            let mut w = World::new(cfg.clone()).unwrap();
+            w.apply(&Op::Tick(0)).unwrap();
+            letters += 1;
+            loop {
+                let Some(op) = w.enabled().into_iter().find(|o| matches!(o, Op::Exec { fate: Fate::Deliver, .. })) else { break };
+                w.apply(&op).unwrap();
+                letters += 1;
+            }
+        }
+        println!("50 worlds with {letters} letters: {:?}", t.elapsed());
+        let mut w = World::new(cfg.clone()).unwrap();
+        let t = std::time::Instant::now();
+        w.apply(&Op::Tick(0)).unwrap();
+        println!("Tick: {:?}", t.elapsed());
+        loop {
+            let t = std::time::Instant::now();
+            let en = w.enabled();
+            let te = t.elapsed();
+            let Some(op) = en.into_iter().find(|o| matches!(o, Op::Exec { fate: Fate::Deliver, .. })) else { break };
+            let t = std::time::Instant::now();
+            let obs = w.apply(&op).unwrap();
+            let ta = t.elapsed();
+            let t = std::time::Instant::now();
+            let _ = w.canon();
+            w.check().unwrap();
+            println!("enabled {te:?} apply {ta:?} canon+check {:?}  {obs}", t.elapsed());
+        }
+    }
+}
+
+#[cfg(test)]
+mod directed {
+    use super::*;
+
+    /// Deliver every queued call of replica r (in queue order), except that calls whose
+    /// description starts with `what` on node `n` get `fate`.
+    fn run(w: &mut World, r: usize, special: &[(&str, usize, Fate)]) {
+        loop {
+            let Some(c) = w.queue.iter().find(|c| c.r == r).cloned() else { break };
+            let k = 0;
+            let fate = special.iter().find(|(what, n, _)| c.desc.starts_with(what) && *n == c.n).map(|x| x.2).unwrap_or(Fate::Deliver);
+            let op = Op::Exec { r, n: c.n, k, fate };
+            let obs = w.apply(&op).unwrap();
+            println!("  {op:?} -> {obs}");
+            if let Err(v) = w.check() {
+                println!("VIOLATION {} {}", v.sig, v.msg);
+                panic!("violation");
+            }
+        }
+    }
+
+    fn cfg() -> Cfg {
+        Cfg { name: "t".into(), replicas: 2, nodes: 3, budget: 0, stream_max_len: 1000, exact_trim: false, max_height: 3, max_epoch: 9, max_crashes: 2, allow_release: true, allow_sync: true }
+    }
+
+    /// Execute the queued call of replica r on node n whose description starts with `what`.
+    fn one(w: &mut World, r: usize, n: usize, what: &str, fate: Fate) -> Result<(), Violation> {
+        let k = w.queue.iter().filter(|c| c.r == r && c.n == n).position(|c| c.desc.starts_with(what)).expect("no such call");
+        let op = Op::Exec { r, n, k, fate };
+        let obs = w.apply(&op).unwrap();
+        println!("  {op:?} -> {obs}");
+        w.check()
+    }
+
+    /// Deliver everything replica r is waiting for, except `write` calls.
+    fn reads(w: &mut World, r: usize, special: &[(&str, usize, Fate)]) {
+        loop {
+            let Some(c) = w.queue.iter().find(|c| c.r == r && !c.desc.starts_with("write")).cloned() else { break };
+            let fate = special.iter().find(|(what, n, _)| c.desc.starts_with(what) && *n == c.n).map(|x| x.2).unwrap_or(Fate::Deliver);
+            one(w, r, c.n, &c.desc.clone(), fate).unwrap();
+        }
+    }
+
+    /// The same defect with two deviations only: the straggler write of height 1
+    /// reaches node 2 after the write of height 2 (plain message reordering), the
+    /// follower learned block 1 over P2P, one lease expiry, one failed read.
+    #[test]
+    fn suspect_5_6_two_deviations() {
+        let mut w = World::new(cfg()).unwrap();
+        w.apply(&Op::Tick(0)).unwrap();
+        reads(&mut w, 0, &[]);
+        one(&mut w, 0, 0, "write", Fate::Deliver).unwrap();
+        one(&mut w, 0, 1, "write", Fate::Deliver).unwrap(); // quorum: publish returns, n2's write stays in flight
+        w.apply(&Op::Commit(0)).unwrap();
+        w.apply(&Op::Sync(1)).unwrap();
+        w.apply(&Op::Tick(0)).unwrap();
+        reads(&mut w, 0, &[]);
+        one(&mut w, 0, 1, "write(e1,r0.0,h2", Fate::Deliver).unwrap();
+        one(&mut w, 0, 2, "write(e1,r0.0,h2", Fate::Deliver).unwrap(); // quorum; n0's write stays in flight
+        w.apply(&Op::Commit(0)).unwrap();
+        one(&mut w, 0, 2, "write(e1,r0.0,h1", Fate::Deliver).unwrap(); // late straggler: h1 lands after h2 on n2
+        println!("streams {:?}", w.streams());
+        w.apply(&Op::ExpireAll).unwrap();
+        w.apply(&Op::Tick(1)).unwrap();
+        reads(&mut w, 1, &[("latest", 1, Fate::Drop)]);
+        println!("phase {:?}", w.reps[1].phase);
+        one(&mut w, 1, 0, "write(e2,r1.0,h2", Fate::Deliver).unwrap();
+        let v = one(&mut w, 1, 2, "write(e2,r1.0,h2", Fate::Deliver).unwrap_err();
+        println!("{} / {}", v.sig, v.msg);
+        assert_eq!(v.sig, "C25:QuorumUnique:two-blocks-on-one-node-after-lower-height-was-appended-later");
+    }
+
+    #[test]
+    #[should_panic(expected = "violation")]
+    fn suspect_5_6_out_of_order_repair_hides_height() {
+        let mut w = World::new(cfg()).unwrap();
+        // h1: written to n0,n1 only
+        w.apply(&Op::Tick(0)).unwrap();
+        run(&mut w, 0, &[("write", 2, Fate::Drop)]);
+        w.apply(&Op::Commit(0)).unwrap();
+        // h2: written to n1,n2 only
+        w.apply(&Op::Tick(0)).unwrap();
+        run(&mut w, 0, &[("write", 0, Fate::Drop)]);
+        w.apply(&Op::Commit(0)).unwrap();
+        println!("streams {:?}", w.streams());
+        // B takes over, its read of n0 fails => h1 looks sub-quorum => repair appends h1 after h2 on n2
+        w.apply(&Op::ExpireAll).unwrap();
+        w.apply(&Op::Tick(1)).unwrap();
+        run(&mut w, 1, &[("entries", 0, Fate::Drop)]);
+        println!("streams {:?} phase {:?}", w.streams(), w.reps[1].phase);
+        w.apply(&Op::Commit(1)).unwrap();
+        w.check().unwrap();
+        w.apply(&Op::Crash(1)).unwrap();
+        w.apply(&Op::Restart(1)).unwrap();
+        w.apply(&Op::ExpireAll).unwrap();
+        w.apply(&Op::Tick(1)).unwrap();
+        run(&mut w, 1, &[("latest", 1, Fate::Drop)]);
+        println!("streams {:?} phase {:?}", w.streams(), w.reps[1].phase);
+        w.check().unwrap();
+        println!("{}", w.apply(&Op::Commit(1)).unwrap());
+        if let Err(v) = w.check() {
+            println!("VIOLATION {} {}", v.sig, v.msg);
+            panic!("violation");
+        }
     }
 }
